@@ -119,7 +119,7 @@ def _(fobj: "file", start_offset: "opt[int]", maxrange: "opt[int]"):
     ghost(after="yield ArtifactKitPayload(offset=pos, size=size, xorkey=xorkey, hints=hints, payload=payload)",
           do=[assert_(len(yielded) == len(y_old) + 1),
               assert_(ak_item_ok(F, pos, yielded[len(y_old)])),
-              assert_(forall(lambda k: yielded[k] == y_old[k], 0, len(y_old)))])
+              assert_(forall(lambda k: same(yielded[k], y_old[k]), 0, len(y_old)))])
     domain(fobj=files(alphabet=b"\x00\x10\x11\x12", maxlen=5, positions=(0, 1)) + gen_ak_files(),
            start_offset=ints(None, 0, 1), maxrange=ints(None, 0, 1, 3))
 
